@@ -91,7 +91,7 @@ def one_refactor(path):
 
 def refactors(argv):
     import glob
-    files = sorted(glob.glob(os.path.join(VERIF, "refactors", "*.diff")))
+    files = sorted(glob.glob(os.path.join(VERIF, "refactors", "bold" if "--bold" in argv else "", "*.diff")))
     if "--only" in argv:
         o = argv[argv.index("--only") + 1]
         files = [f for f in files if o in f]
